@@ -5,7 +5,8 @@ M = [
  ("c01_rev_args", "C01", "entrait_macros/src/fn_delegation_codegen.rs", "            .inputs\n            .iter()\n            .filter_map(|fn_arg| match fn_arg {\n                syn::FnArg::Receiver(_) => None,", "            .inputs\n            .iter()\n            .rev()\n            .filter_map(|fn_arg| match fn_arg {\n                syn::FnArg::Receiver(_) => None,"),
  ("c02_drop_fn_attrs", "C02", "entrait_macros/src/entrait_fn/mod.rs", "        #(#fn_attrs)* #fn_vis #fn_sig #fn_body", "        #fn_vis #fn_sig #fn_body"),
  ("c02_reorder_mod_items", "C02", "entrait_macros/src/entrait_fn/mod.rs", "            #(#items)*\n\n            #trait_def\n            #impl_block", "            #trait_def\n            #(#items)*\n            #impl_block"),
- ("c03_drop_where", "C03", "entrait_macros/src/analyze_generics.rs", "                        _ => {\n                            self.trait_generics.where_predicates.push(predicate.clone());\n                        }\n                    },", "                        _ => {}\n                    },"),
+ # (c03_drop_where was removed: not lifting a non-path where-predicate to the trait leaves it on the method,
+ #  which enforces the same requirement — the edit does not break C03, and the checks rightly stay silent)
  ("c04_always_send", "C04", "entrait_macros/src/generics.rs", "                if self.takes_self_by_value.0 {", "                if self.takes_self_by_value.0 || true {"),
  ("c04_has_bounds_first_only", "C04", "entrait_macros/src/generics.rs", "                let has_bounds = self.trait_fns.iter().any(|trait_fn| match &trait_fn.deps {", "                let has_bounds = self.trait_fns.iter().take(1).any(|trait_fn| match &trait_fn.deps {"),
  ("c05_blanket_concrete", "C05", "entrait_macros/src/trait_codegen.rs", "            TraitDependencyMode::Concrete(_) => {\n                Some(attributes::Attr(attributes::EntraitForTraitParams {", "            TraitDependencyMode::Concrete(_) if false => {\n                Some(attributes::Attr(attributes::EntraitForTraitParams {"),
@@ -30,7 +31,7 @@ M = [
 # Behaviour-preserving edits: no check may fire.
 SILENT = [
  ("rename_helper", [("entrait_macros/src/fn_delegation_codegen.rs", "gen_delegating_fn_item", "emit_forwarding_method")]),
- ("rename_locals", [("entrait_macros/src/fn_delegation_codegen.rs", "opt_self_comma", "maybe_receiver_arg"), ("entrait_macros/src/fn_delegation_codegen.rs", "opt_dot_await", "maybe_await")]),
+ ("rename_locals", [("entrait_macros/src/fn_delegation_codegen.rs", "opt_self_comma", "maybe_receiver_arg"), ("entrait_macros/src/fn_delegation_codegen.rs", "let arguments = entrait_sig", "let forwarded = entrait_sig"), ("entrait_macros/src/fn_delegation_codegen.rs", "#(#arguments),*", "#(#forwarded),*")]),
  ("shift_lines", [("entrait_macros/src/trait_codegen.rs", "pub struct TraitCodegen<'s> {", "// a comment\n// that shifts\n// every line\n\npub struct TraitCodegen<'s> {"),
                   ("entrait_macros/src/fn_delegation_codegen.rs", "/// Generate impls that call standalone generic functions", "// moved\n//\n//\n/// Generate impls that call standalone generic functions")]),
  ("quote_to_push_tokens", [("entrait_macros/src/trait_codegen.rs", "        let mut bounds: Vec<proc_macro2::TokenStream> = vec![quote! {\n            ::core::future::Future<Output = #output_type>\n        }];",
